@@ -207,3 +207,119 @@ pub fn ln_trop(c: &Comb, fp: &FPoly, ln_x: &[f64]) -> (f64, f64) {
 pub fn q_ratio_to_f64(a: &Q, b: &Q) -> f64 {
     (a / b).to_f64().unwrap_or(f64::NAN)
 }
+
+/// the sampling algorithm's own tropical values in a sector: U_tr = Π x_e over removals that drop the loop number,
+/// V_tr = x_e of the removal that loses the mass-momentum-spanning flag (x given per edge, decreasing along `order`)
+pub fn trop_algorithmic(g: &OGraph, order: &[usize], x: &[Q]) -> (Q, Option<Q>) {
+    use num_traits::One;
+    let mut cur = g.full();
+    let mut u = Q::one();
+    let mut v = None;
+    for &e in order {
+        let next = cur ^ (1 << e);
+        if g.mass_momentum_spanning(cur) && !g.mass_momentum_spanning(next) {
+            v = Some(x[e].clone());
+        }
+        if g.loop_number(next) < g.loop_number(cur) {
+            u *= &x[e];
+        }
+        cur = next;
+    }
+    (u, v)
+}
+
+#[cfg(test)]
+mod tests {
+    use super::*;
+    use crate::kin::{external_momenta, partial_sums_nonzero};
+    use crate::symanzik::{f_poly, u_trop, Comb};
+
+    fn perms(n: usize) -> Vec<Vec<usize>> {
+        fn rec(p: &mut Vec<usize>, k: usize, out: &mut Vec<Vec<usize>>) {
+            if k == p.len() {
+                out.push(p.clone());
+                return;
+            }
+            for i in k..p.len() {
+                p.swap(k, i);
+                rec(p, k + 1, out);
+                p.swap(k, i);
+            }
+        }
+        let mut out = vec![];
+        rec(&mut (0..n).collect(), 0, &mut out);
+        out
+    }
+
+    /// The theorem C02 / C07 rely on, brute-forced independently of the implementation: in every sector the algorithmic
+    /// tropical values are the largest monomials of U and of F/U – for generic kinematics. With exactly one declared external
+    /// and masses it fails (momentum conservation forces p = 0), which is domain clause G3.
+    #[test]
+    fn tropical_theorem_brute_force() {
+        let labels = [0u8, 1, 2];
+        let mut pairs = vec![];
+        for (i, &a) in labels.iter().enumerate() {
+            for &b in &labels[i..] {
+                pairs.push((a, b));
+            }
+        }
+        let (mut sectors_checked, mut single_ext_mismatches) = (0u64, 0u64);
+        for ne in 1..=4usize {
+            let mut idx = vec![0usize; ne];
+            loop {
+                let edges: Vec<(u8, u8)> = idx.iter().map(|&i| pairs[i]).collect();
+                let base = OGraph { edges: edges.clone(), massive: vec![false; ne], weights: vec![1.0; ne], externals: vec![], dim: 4 };
+                if base.is_connected() && (ne <= 3 || idx.iter().sum::<usize>() % 5 == 0) {
+                    let verts = base.vertices(base.full());
+                    for mm in 0..(1usize << ne) {
+                        let massive: Vec<bool> = (0..ne).map(|e| mm >> e & 1 == 1).collect();
+                        for em in 0..(1usize << verts.len()) {
+                            let ext: Vec<u8> = (0..verts.len()).filter(|i| em >> i & 1 == 1).map(|i| verts[i]).collect();
+                            if ext.is_empty() && mm == 0 {
+                                continue; // scaleless
+                            }
+                            let g = OGraph { edges: edges.clone(), massive: massive.clone(), weights: vec![1.0; ne], externals: ext.clone(), dim: 4 };
+                            let comb = Comb::new(&g);
+                            let moms = external_momenta(&ext, 4, 0);
+                            let masses: Vec<Option<Q>> = (0..ne).map(|e| if massive[e] { Some(qr(1 + e as i64, 2)) } else { None }).collect();
+                            let fp = f_poly(&comb, &moms, &masses);
+                            let generic = ext.len() != 1 && (ext.is_empty() || partial_sums_nonzero(&moms)) && !fp.is_zero();
+                            for order in perms(ne) {
+                                // strictly decreasing parameters along the removal order
+                                let mut x = vec![Q::zero(); ne];
+                                for (k, &e) in order.iter().enumerate() {
+                                    x[e] = qr(1, 1 << (3 * k));
+                                }
+                                let (ua, va) = trop_algorithmic(&g, &order, &x);
+                                let ub = u_trop(&comb, &x);
+                                assert_eq!(ua, ub, "U_tr {edges:?} {order:?}");
+                                let vb = &fp.trop(&x) / &ub;
+                                let same = va.as_ref() == Some(&vb);
+                                if generic {
+                                    assert!(same, "V_tr {edges:?} masses {massive:?} ext {ext:?} order {order:?}: {va:?} vs {vb}");
+                                    sectors_checked += 1;
+                                } else if !same && ext.len() == 1 {
+                                    single_ext_mismatches += 1;
+                                }
+                            }
+                        }
+                    }
+                }
+                let mut k = 0;
+                while k < ne {
+                    idx[k] += 1;
+                    if idx[k] < pairs.len() {
+                        break;
+                    }
+                    idx[k] = 0;
+                    k += 1;
+                }
+                if k == ne {
+                    break;
+                }
+            }
+        }
+        assert!(sectors_checked > 20_000, "{sectors_checked}");
+        assert!(single_ext_mismatches > 0, "the single-external exception should be visible");
+    }
+}
